@@ -1054,7 +1054,9 @@ def weak_scalar_attribution(desc, cls, seed):
 def signature(desc, cls, attributed=None, untracked_only=False):
     if attributed:
         n = len(desc["operands"])
-        parts = [f"C03|{cls}|weak-python-scalar|{'unary' if n == 1 else 'binary' if n == 2 else 'nary'}"]
+        # the family is per category of entry point: differentiable ufuncs and the other op categories cast Python
+        # scalars in Tensor._op; the constant-only ufuncs (floor_divide, remainder, comparisons, ...) hand them to NumPy
+        parts = [f"C03|{cls}|weak-python-scalar|{desc['cat']}|route={desc['route']}|{'unary' if n == 1 else 'binary' if n == 2 else 'nary'}"]
         if desc.get("kwargs") and cls == "raises":
             parts.append("kw=" + ",".join(sorted(desc["kwargs"])))
         return "|".join(parts)
